@@ -5,6 +5,7 @@ import LimnoriaModel.C15.BootLemmas
 import LimnoriaModel.C15.ValidatorLemmas
 import LimnoriaModel.C15.NormLemmas
 import LimnoriaModel.C15.WrapLemmas
+import LimnoriaModel.C15.WrapEquivLemmas
 import LimnoriaModel.C15.SaveLoadLemmas
 import LimnoriaModel.C15.ListLemmas
 namespace C15
@@ -341,6 +342,24 @@ theorem normalized_file_roundtrip (pr : Char → Bool) (name : Str) (hn : GoodNa
           nsSerialize name (encodeUE (strStr pr (StrClass.normalized.setValue v)))⟩]) = .ok [(name, T)] ∧
       StrClass.set .normalized pr T = .ok (StrClass.normalized.setValue v) :=
   normalized_file_roundtrip_aux header_table_ok quotes_table_ok nw_table_ok pr name hn help hhelp v
+
+/-- **the two models of `textwrap.wrap` agree**: on a text made of non-empty blank-free words
+joined by single blanks, the chunk-level algorithm (`_split_chunks` into runs, `_wrap_chunks` with
+its dropped leading/trailing blank chunks and its long-word rule) yields exactly the lines of the
+word-level `wrapWords`, for every width. -/
+theorem wrap_models_agree (width : Nat) (ws : List Str)
+    (hw : ∀ w ∈ ws, w ≠ [] ∧ ∀ c ∈ w, isSpace c = false) :
+    wrapText width (joinChar ' ' ws) = (wrapWords width ws).map (joinChar ' ') :=
+  wrapText_eq_wrapWords width ws hw
+
+/-- hence `NormalizedString.serialize` — stated in the model through `wrapWords` — is the
+chunk-level `textwrap.wrap` on every text it is applied to (the escaped text of a normalised
+value: printable ASCII words, single blanks), for every name and value. -/
+theorem normalized_serialize_is_textwrap (pr : Char → Bool) (name v : Str) :
+    nsSerialize name (encodeUE (strStr pr (StrClass.normalized.setValue v))) =
+      joinChar '\n' (decorateLines (name.length + Gen.Registry.wrapPrefixExtra) 0
+        (wrapText (nsWidth name) (encodeUE (strStr pr (StrClass.normalized.setValue v))))) :=
+  nsSerialize_chunk_level nw_table_ok pr name v
 
 /-- end to end for the String class: the line written for `v` under a reader-safe name loads, and
 `set` of the cached text gives `v` back -/
